@@ -341,7 +341,9 @@ func join(a, b context, node parse.Node, nodeName string) context {
 	// contents of a are always returned.
 	a.element.names = joinNames(a.element.name, b.element.name, a.element.names, b.element.names)
 	a.attr.names = joinNames(a.attr.name, b.attr.name, a.attr.names, b.attr.names)
-	if a.attr.value != b.attr.value {
+	// The value is also ambiguous if it already is in b: a nested conditional may have
+	// produced different values although the value kept for b equals the one of a.
+	if a.attr.value != b.attr.value || b.attr.ambiguousValue {
 		a.attr.ambiguousValue = true
 	}
 
